@@ -340,7 +340,8 @@ def oracle_c18(case):
                 return f'RR changed gate {l}'
         od = ct.dump_circuit(out)
         _, twice = apply(od, [['RR', allow]])
-        if ct.dump_circuit(twice) != od:
+        td = ct.dump_circuit(twice)
+        if not (twice == out) or td['inputs'] != od['inputs'] or td['outputs'] != od['outputs']:
             return f'RR(allow_inputs_removal={allow}) applied twice differs from applied once'
     # MD (+ its implied RR): no two gates with the same type and operands (up to order for symmetric)
     _, out = apply(dump, [['MD']])
